@@ -7,7 +7,7 @@ use crate::{
     integrals::{CellIntegralWithData, FaceIntegralWithData},
     simple_cycle::SimpleCycle,
 };
-use glam::DVec3;
+use glam::{DMat3, DVec3};
 use std::any::TypeId;
 use std::marker::PhantomData;
 
@@ -43,6 +43,59 @@ impl Vertex {
         Vertex {
             loc,
             dual: [i, j, k],
+            radius2: gen_loc.distance_squared(d_loc),
+        }
+    }
+
+    /// Determinant of the (unit) normals of three planes below which they are considered linearly
+    /// dependent (the determinant of exactly dependent planes is only zero up to rounding). Nearly
+    /// dependent planes with a larger determinant are still intersected directly.
+    const DEGENERATE_TRIPLE: f64 = 1e-12;
+
+    /// Are the normals of the half spaces `i`, `j` and `k` linearly dependent up to rounding?
+    fn is_degenerate_triple(i: usize, j: usize, k: usize, half_spaces: &[HalfSpace]) -> bool {
+        DMat3::from_cols(half_spaces[i].plane.n, half_spaces[j].plane.n, half_spaces[k].plane.n)
+            .determinant()
+            .abs()
+            <= Self::DEGENERATE_TRIPLE
+    }
+
+    /// Construct the vertex with dual `(i, j, k)` where the edge between the removed vertex at
+    /// `removed` and the retained vertex at `kept` (both on the half spaces `i` and `j`) meets the
+    /// new half space `k`, for an edge that (almost) lies in the plane of `k`.
+    ///
+    /// The three planes are then (almost) linearly dependent and their intersection is
+    /// ill-defined, while every point of the edge lies on the new plane up to rounding: the new
+    /// vertex is located on the edge itself, from the distances of its end points to the plane.
+    fn from_dual_on_edge(
+        dual: [usize; 3],
+        half_spaces: &[HalfSpace],
+        gen_loc: DVec3,
+        dimensionality: Dimensionality,
+        removed: DVec3,
+        kept: DVec3,
+    ) -> Self {
+        let new_half_space = &half_spaces[dual[2]];
+        let plane = &new_half_space.plane;
+        let d_removed = (removed - plane.p).dot(plane.n);
+        let d_kept = (kept - plane.p).dot(plane.n);
+        // When both end points lie on the new plane up to rounding, the whole edge does and the
+        // new vertex takes the place of the removed end point.
+        let in_plane = new_half_space.clip(removed) == 0. && new_half_space.clip(kept) == 0.;
+        let t = if !in_plane && d_removed < 0. && d_kept > d_removed {
+            (-d_removed / (d_kept - d_removed)).clamp(0., 1.)
+        } else {
+            0.
+        };
+        let loc = removed + t * (kept - removed);
+        let d_loc = match dimensionality {
+            Dimensionality::OneD => DVec3::new(loc.x, 0., 0.),
+            Dimensionality::TwoD => DVec3::new(loc.x, loc.y, 0.),
+            Dimensionality::ThreeD => loc,
+        };
+        Vertex {
+            loc,
+            dual,
             radius2: gen_loc.distance_squared(d_loc),
         }
     }
@@ -443,18 +496,45 @@ impl ConvexCell<WithoutFaces> {
                 self.vertices[num_v..].iter().map(|v| v.dual).collect();
             let mut boundary = self.boundary.iter().take(self.boundary.len + 1);
             // finally we can *realy* remove the vertices.
-            self.vertices.truncate(num_v);
+            let removed = self.vertices.split_off(num_v);
             // Add new vertices constructed from the new clipping plane and the boundary
             let mut cur = boundary.next().expect("Boundary contains at least 3 elements");
             for next in boundary {
-                self.vertices.push(Vertex::from_dual(
-                    cur,
-                    next,
-                    p_idx,
-                    &self.clipping_planes,
-                    self.loc,
-                    simulation_boundary.dimensionality,
-                ));
+                // The new vertex lies on the edge (cur, next) of the cell. If that edge lies in
+                // the new plane (up to rounding), locate the vertex from the end points of the
+                // edge: the removed one has (cur, next) as consecutive planes of its dual, the
+                // retained one (next, cur).
+                let has_edge = |v: &Vertex, a: usize, b: usize| {
+                    (0..3).any(|m| v.dual[m] == a && v.dual[(m + 1) % 3] == b)
+                };
+                let end_points =
+                    if Vertex::is_degenerate_triple(cur, next, p_idx, &self.clipping_planes) {
+                        removed
+                            .iter()
+                            .find(|v| has_edge(v, cur, next))
+                            .zip(self.vertices.iter().find(|v| has_edge(v, next, cur)))
+                    } else {
+                        None
+                    };
+                let vertex = match end_points {
+                    Some((removed, kept)) => Vertex::from_dual_on_edge(
+                        [cur, next, p_idx],
+                        &self.clipping_planes,
+                        self.loc,
+                        simulation_boundary.dimensionality,
+                        removed.loc,
+                        kept.loc,
+                    ),
+                    None => Vertex::from_dual(
+                        cur,
+                        next,
+                        p_idx,
+                        &self.clipping_planes,
+                        self.loc,
+                        simulation_boundary.dimensionality,
+                    ),
+                };
+                self.vertices.push(vertex);
                 cur = next;
             }
             self.update_safety_radius();
